@@ -9,7 +9,7 @@ import UtilModel.CCall.Monitors
 import UtilModel.Conc.Monitors
 import UtilModel.Treiber.Monitors
 import UtilModel.LinkedList.Monitors
-import UtilModel.Broadcast.Monitors
+import UtilModel.Broadcast.LockModel
 import UtilModel.CContainer.Monitors
 import UtilModel.RefCount.ConsMonitors
 import UtilModel.Routine.Monitors
@@ -34,9 +34,9 @@ def registry : List Entry := [
   mkEntry "seq-unique" Seq.Unique.model Seq.Unique.Obs.parse [MonEntry.ofMonitor "C20" Seq.monC20Unique],
   mkEntry "ccall" CCall.model CCall.Obs.parse [MonEntry.ofMonitor "C17" CCall.monC17],
   mkEntryH "conc" Conc.model Conc.Obs.parse [MonEntry.ofMonitor "C18" Conc.monC18] (cap := 20000),
-  mkEntry "lifo" Treiber.model Treiber.Obs.parse [MonEntry.ofMonitor "C12" Treiber.monC12] (cap := 1200),
-  mkEntry "linkedlist" LinkedList.model LinkedList.parseObs [MonEntry.ofMonitor "C12" LinkedList.monC12] (cap := 2000),
-  mkEntryH "broadcast" Broadcast.model Broadcast.Obs.parse [MonEntry.ofMonitor "C03" Broadcast.monC03],
+  mkEntryH "lifo" Treiber.model Treiber.Obs.parse [MonEntry.ofMonitor "C12" Treiber.monC12] (cap := 60000),
+  mkEntryH "linkedlist" LinkedList.model LinkedList.parseObs [MonEntry.ofMonitor "C12" LinkedList.monC12] (cap := 60000),
+  mkEntryH "broadcast" Broadcast.lmodel Broadcast.Obs.parse [MonEntry.ofMonitor "C03" Broadcast.monC03L],
   mkEntryH "ccontainer" CContainer.model CContainer.Obs.parse [MonEntry.ofMonitor "C15" CContainer.monC15],
   mkEntryH "refcount" RefCount.model RefCount.Obs.parse [MonEntry.ofMonitor "C08" RefCount.monC08, MonEntry.ofMonitor "C09" RefCount.monC09],
   mkEntryH "refcount-consumers" RefCount.Cons.cmodel RefCount.Cons.CObs.parse [MonEntry.ofMonitor "C10" RefCount.Cons.monC10, MonEntry.ofMonitor "C08c" RefCount.Cons.monC08c, MonEntry.ofMonitor "C09c" RefCount.Cons.monC09c] (cap := 20000),
